@@ -2,7 +2,7 @@
    Response functions range over a deep-embedded grammar (+ - * / integer powers exp sqrt, repeated variables);
    evalR e x is the point value, the strategies are the models of b2b.py. *)
 From Coq Require Import Reals Lra List.
-From PUN Require Import Base.Num Model.Interval Model.IntervalFun Model.Pbox Model.B2B Proofs.IntervalOps Proofs.B2B Proofs.Iso.
+From PUN Require Import Base.Num Model.Interval Model.IntervalFun Model.Pbox Model.B2B Proofs.IntervalOps Proofs.Parametric Proofs.B2B Proofs.B2BMono Proofs.Iso.
 Import ListNotations.
 Open Scope R_scope.
 
@@ -49,7 +49,20 @@ Theorem C13_sub_endpoints_inside_range e box n r : (1 <= n)%nat -> wf_box box ->
   sub_endpoints RN fexp fpow e box n = Ok r ->
   (exists c, in_box c box /\ eval RN fexp fpow e c = fst r) /\ (exists c, in_box c box /\ eval RN fexp fpow e c = snd r).
 Proof. intros Hn W. apply (sub_endpoints_inside_range fexp fpow e box n r Hn W). intros tb Hin. exact (tiles_inside box n tb W Hn Hin). Qed.
+(* the vertex method equals the true range for functions monotone in each argument (either direction, the direction may depend on the
+   other arguments): every value over the box lies between the corner minimum and maximum - with C13_endpoints_inside_range (both ends are
+   values of the function) the vertex result IS the range *)
+Theorem C13_endpoints_exact_for_monotone e box r xs : wf_box box -> in_box xs box -> coord_mono (eval RN fexp fpow e) box ->
+  endpoints RN fexp fpow e box = Ok r -> in_pr (eval RN fexp fpow e xs) r.
+Proof. exact (endpoints_exact_monotone fexp fpow e box r xs). Qed.
 End S.
+(* the tiles partition each dimension exactly: n tiles, starting at the lower end of the box, ending at its upper end, each ending where the
+   next begins (they cover the box - C13_tiles_cover -, share only end points, and reconstitute to it) *)
+Theorem C13_tiles_partition (p : R * R) n : (1 <= n)%nat ->
+  let t := tiles1 RN p n in
+  length t = n /\ fst (nth 0 t (0, 0)) = fst p /\ snd (nth (n - 1) t (0, 0)) = snd p /\
+  (forall k, (S k < n)%nat -> snd (nth k t (0, 0)) = fst (nth (S k) t (0, 0))).
+Proof. exact (tiles1_partition p n). Qed.
 
 Print Assumptions C13_direct_encloses.
 Print Assumptions C13_tiles_cover.
@@ -59,3 +72,5 @@ Print Assumptions C13_sub_direct_encloses_wf.
 Print Assumptions C13_sub_direct_inside_direct.
 Print Assumptions C13_sub_endpoints_contains_endpoints.
 Print Assumptions C13_sub_endpoints_inside_range.
+Print Assumptions C13_endpoints_exact_for_monotone.
+Print Assumptions C13_tiles_partition.
